@@ -14,6 +14,7 @@ Variable cfg : config.
 Hypothesis CW : cfg_wf cfg.
 Hypothesis FIX7 : fix_block_dirty cfg = true.
 Hypothesis FIX23 : fix_gpv_drop cfg = true.
+Hypothesis FIX46 : fix_whitelist cfg = true.
 
 Notation CohTx := (CohTx cfg).
 Notation Coh := (Coh cfg).
@@ -354,6 +355,20 @@ Proof.
   all: try (intros Hv; rewrite <- (c6 Hv); apply compute_committee_ext; reflexivity).
 Qed.
 
+Lemma whitelist_set_t st a fee st' r : whitelist_set cfg st a fee = Some (st', r) -> TxStep st st'.
+Proof.
+  unfold whitelist_set. rewrite FIX46, andb_false_r. destruct (fee <? 0); intros H; inv H.
+  split; [|split; [|split]]; simpl; auto. intros [c1 c2 c3 c4 c5 c6]. constructor; simpl; auto; try congruence.
+  all: try (intros Hv; rewrite <- (c6 Hv); apply compute_committee_ext; reflexivity).
+Qed.
+
+Lemma whitelist_remove_t st a st' r : whitelist_remove st a = Some (st', r) -> TxStep st st'.
+Proof.
+  unfold whitelist_remove. destruct (_ =? 0); intros H; inv H.
+  split; [|split; [|split]]; simpl; auto. intros [c1 c2 c3 c4 c5 c6]. constructor; simpl; auto; try congruence.
+  all: try (intros Hv; rewrite <- (c6 Hv); apply compute_committee_ext; reflexivity).
+Qed.
+
 Lemma dedup_put idx v c : gpb_store_put idx v (dedup c) = dedup ((idx, v) :: c).
 Proof. simpl. unfold gpb_store_put. destruct (dedup c) as [|[j w] t]; reflexivity. Qed.
 
@@ -393,6 +408,8 @@ Proof.
   - destruct (committee_witness st t); [apply block_account_t; exact Hwf|discriminate].
   - destruct (committee_witness st t); [apply unblock_account_t|discriminate].
   - destruct (committee_witness st t); [apply policy_set_t|discriminate].
+  - destruct (committee_witness st t && i_halt t); [|discriminate].
+    destruct fee; [apply whitelist_set_t|apply whitelist_remove_t].
   - discriminate.
   - destruct (i_halt t); intros H; inv H. apply TxStep_refl.
 Qed.
